@@ -50,6 +50,10 @@ def gen(t, tier):
     sc = {'api': api, 'pool': t.randint(1, 7), 'result_objects': bool(t.choice(2)) if api.startswith('pool.') else False,
           'policy': t.pick([['random'], ['sticky', 0.5], ['sticky', 0.2], ['sticky', 0.05]]),
           'items': [{'yields': t.randint(0, 3), 'fail': bool(t.chance(0.2))} for _ in range(n)]}
+    if api.startswith('pool.') and t.chance(0.3):
+        # the same pool object is used for a second call (after the first one returned or raised)
+        m = t.randint(2, 5)
+        sc['second'] = [{'yields': t.randint(0, 3), 'fail': bool(t.chance(0.15))} for _ in range(m)]
     return sc
 
 
@@ -71,40 +75,78 @@ def shrink(sc):
         c = copy.deepcopy(sc)
         c['pool'] = 2
         yield c
+    if sc.get('second'):
+        c = copy.deepcopy(sc)
+        del c['second']
+        yield c
+        for i in range(len(sc['second'])):
+            if len(sc['second']) > 2:
+                c = copy.deepcopy(sc)
+                del c['second'][i]
+                yield c
 
 
 def run(sc, tape):
     from mapproxy.util import async_
     w = World(tape, policy=tuple(sc['policy']), step_cap=20000)
     sched = w.sched
-    items = sc['items']
-    n = len(items)
-    excs = [ItemError('item %d failed' % i) for i in range(n)]
-    values = [('value', i, 1000 + i) for i in range(n)]
-    executed = [0] * n
-    finish_order = []
+    rounds = [sc['items']] + ([sc['second']] if sc.get('second') else [])
     threads_used = set()
-    out = {}
+    outs = []
+    state = {}
+    pool_holder = {}
+
+    def setup_round(r):
+        items = rounds[r]
+        n = len(items)
+        state.update({'items': items, 'n': n, 'excs': [ItemError('round %d item %d failed' % (r, i)) for i in range(n)],
+                      'values': [('value', r, i, 1000 + i) for i in range(n)], 'executed': [0] * n, 'finish_order': []})
 
     def work(i, tag=None):
         import threading
-        executed[i] += 1
+        st = work.state
+        st['executed'][i] += 1
         threads_used.add(threading.get_ident())
-        for _ in range(items[i]['yields']):
+        for _ in range(st['items'][i]['yields']):
             sched.yield_point('work', i)
-        finish_order.append(i)
-        if items[i]['fail']:
-            raise excs[i]
-        return values[i]
+        st['finish_order'].append(i)
+        if st['items'][i]['fail']:
+            raise st['excs'][i]
+        return st['values'][i]
+
+    def make_work(st):
+        # each round gets its own function object bound to its own state (items of an aborted first call may still run)
+        def w_(i, tag=None):
+            import threading
+            st['executed'][i] += 1
+            threads_used.add(threading.get_ident())
+            for _ in range(st['items'][i]['yields']):
+                sched.yield_point('work', i)
+            st['finish_order'].append(i)
+            if st['items'][i]['fail']:
+                raise st['excs'][i]
+            return st['values'][i]
+        return w_
 
     def caller():
+        for r in range(len(rounds)):
+            setup_round(r)
+            st = dict(state)
+            one_call(st, make_work(st))
+            outs.append(st)
+
+    def one_call(st, work):
         api = sc['api']
+        n = st['n']
         kw = {'use_result_objects': True} if sc['result_objects'] else {}
         got = []
         raised = None
+        out = st
         try:
             if api.startswith('pool.'):
-                pool = async_.ThreadPool(sc['pool'])
+                if 'pool' not in pool_holder:
+                    pool_holder['pool'] = async_.ThreadPool(sc['pool'])
+                pool = pool_holder['pool']
                 if api == 'pool.map':
                     it = pool.map(work, list(range(n)), **kw)
                 elif api == 'pool.imap':
@@ -123,6 +165,8 @@ def run(sc, tape):
                 got.append(r)
         except ItemError as ex:
             raised = ex
+        except Exception as ex:
+            out['caller_exc'] = ex
         out['got'] = got
         out['raised'] = raised
         out['returned'] = True
@@ -137,42 +181,53 @@ def run(sc, tape):
             harness_err = ex
         for t in sched.tasks:
             if t.exc is not None and t.name == 'caller':
-                out['caller_exc'] = t.exc
+                raise t.exc
     if harness_err is not None:
         raise harness_err
 
     v = None
     unspecified = 0
     name = '%s%s' % (sc['api'], ':objects' if sc['result_objects'] else ':raising')
-    if n == 0 and sc['api'] in ('pool.map', 'pool.imap', 'pool.starmap', 'pool.starcall', 'imap', 'starmap', 'starcall') \
-            and 'caller_exc' in out and isinstance(out['caller_exc'], IndexError):
-        # empty input: args[0] of an empty list - an input-space question (no schedule involved), not C15
-        unspecified += 1
-    elif 'caller_exc' in out:
-        ex = out['caller_exc']
-        v = {'sig': 'C15:unexpected-exception:%s:%s' % (type(ex).__name__, name),
-             'msg': 'the call raised %r (not an exception of any item)' % (ex,)}
-    elif not out.get('returned'):
-        v = {'sig': 'C15:hang:%s' % name, 'msg': 'the call did not terminate: %s, blocked tasks %r' % (outcome, sched.stuck_info)}
-    else:
-        v, unspecified = _oracle(sc, out, n, items, excs, values, executed, name)
-        if v is None and sched.unexpected:
-            v = {'sig': 'C15:worker-died:%s' % name, 'msg': 'a worker thread died: %r' % (sched.unexpected,)}
+    if len(outs) < len(rounds):
+        v = {'sig': 'C15:hang:%s' % name, 'msg': 'call %d did not terminate: %s, blocked tasks %r' % (len(outs) + 1, outcome, sched.stuck_info)}
+    for r, out in enumerate(outs):
+        if v is not None:
+            break
+        n, items = out['n'], out['items']
+        rname = name + (':second-call' if r else '')
+        if n == 0 and 'caller_exc' in out and isinstance(out['caller_exc'], IndexError):
+            # empty input: args[0] of an empty list - an input-space question (no schedule involved), not C15
+            unspecified += 1
+        elif 'caller_exc' in out:
+            ex = out['caller_exc']
+            v = {'sig': 'C15:unexpected-exception:%s:%s' % (type(ex).__name__, rname),
+                 'msg': 'the call raised %r (not an exception of any item)' % (ex,)}
+        else:
+            v, u = _oracle(sc, out, n, items, out['excs'], out['values'], out['executed'], rname)
+            unspecified += u
+    if v is None and sched.unexpected:
+        v = {'sig': 'C15:worker-died:%s' % name, 'msg': 'a worker thread died: %r' % (sched.unexpected,)}
     leaked = sum(1 for t in sched.tasks if t.state != 3)
     probes = {}
     if leaked:
         probes['workers_left_blocked_after_call'] = leaked
+    first = outs[0] if outs else {'finish_order': [], 'n': 0, 'items': []}
+    finish_order = first['finish_order']
+    n = first['n']
     reordered = finish_order != sorted(finish_order)
     if reordered:
         probes['completion_order_differs_from_input'] = 1
     if len(finish_order) == n and n > 0:
         probes['perm_' + ''.join(map(str, finish_order))] = 1 if n == 6 else 0
-    nontrivial = len(threads_used) >= 2 and (reordered or any(i['fail'] for i in items))
-    return {'violation': v, 'digest': C.digest_of(sc['api'], sc['pool'], sc['result_objects'], items, sched.log),
+    if len(rounds) > 1:
+        probes['pool_used_twice'] = 1
+    nontrivial = len(threads_used) >= 2 and (reordered or any(i['fail'] for i in first['items']))
+    return {'violation': v, 'digest': C.digest_of(sc['api'], sc['pool'], sc['result_objects'], rounds, sched.log),
             'nontrivial': nontrivial, 'steps': sched.steps, 'sim_time': 0.0, 'faults': {},
             'probes': dict((k, v2) for k, v2 in probes.items() if v2), 'unspecified': unspecified,
-            'sample': {'api': name, 'pool': sc['pool'], 'items': items, 'finish_order': finish_order,
-                       'result': [_short(r) for r in out.get('got', [])], 'raised': repr(out.get('raised'))}}
+            'sample': {'api': name, 'pool': sc['pool'], 'items': first['items'], 'finish_order': finish_order,
+                       'result': [_short(r) for r in first.get('got', [])], 'raised': repr(first.get('raised')),
+                       'second_call': bool(sc.get('second'))}}
 
 
 def _short(r):
